@@ -15,7 +15,7 @@ import re
 
 from ..absint import FALSE, NONE, TRUE, App, ClassV, Const, DictV, ListV, NodeV, ObjV, Out, Sym
 from ..pyref import run_reference
-from ..repo import AnalysisError
+from ..repo import AnalysisError, norm
 from ..schematic import (
     MODULE_SCOPE, HandlerPolicy, cpython_load_order, run_handler, shape_expr, shape_stmt,
 )
@@ -210,6 +210,34 @@ def run(ctx):
                     ctx.fail("R01.8", unit, f"except {'/'.join(sorted(caught)) or 'all'} -> raise {raised or ast.unparse(r.exc)[:40]}",
                              f"`{ast.unparse(h).splitlines()[0]}` covers `{drives}` (script code runs there) and raises {raised or 'another exception'} instead: "
                              "the exception the script raised is replaced (Python propagates it unchanged)", rel="eval.py", node=h)
+
+    # R01.11 unpacking takes every item out of the right-hand side before the first store -------------------------------------------------
+    ctx.rule("R01.11", "unpacking assignment: all items are taken out of the right-hand side before any target is stored (`x[1], y = x` must give y the old x[1]): the sequence the "
+                       "targets are served from is a fresh list/tuple built from the iterator, on every path - never the assigned object itself", floor=1)
+    ra = program.func("eval.py::AstEval.recurse_assign")
+    served = set()
+    for n in ast.walk(ra):
+        if isinstance(n, ast.Call) and isinstance(n.func, ast.Attribute) and n.func.attr == "recurse_assign" and len(n.args) == 2 and isinstance(n.args[1], ast.Subscript) \
+                and isinstance(n.args[1].value, ast.Name):
+            served.add(n.args[1].value.id)
+    if not served:
+        raise AnalysisError("R01.11: recurse_assign no longer serves its targets from an indexed sequence")
+
+    def fresh(e):
+        if isinstance(e, (ast.List, ast.Tuple)):
+            return True   # a display builds a new object (its starred elements are iterated at once)
+        if isinstance(e, ast.Call) and isinstance(e.func, ast.Name) and e.func.id in ("list", "tuple"):
+            return True
+        if isinstance(e, ast.IfExp):
+            return fresh(e.body) and fresh(e.orelse)
+        return False
+
+    for name in sorted(served):
+        defs = [n for n in ast.walk(ra) if isinstance(n, ast.Assign) and any(isinstance(t, ast.Name) and t.id == name for t in n.targets)]
+        bad = [d for d in defs if not fresh(d.value)]
+        ctx.check(bool(defs) and not bad, "R01.11", "eval.py::AstEval.recurse_assign", f"`{name}` (the values handed to the targets) is a fresh sequence",
+                  msg=f"recurse_assign serves the targets of an unpacking assignment from `{name}`, which `{norm(bad[0]) if bad else '?'}` can bind to the assigned object itself: a target that "
+                  "writes into that object (`x[1], y = x`) changes what the later targets receive", key="unpack snapshot", node=bad[0] if bad else ra, rel="eval.py")
 
     # R01.10 the name pre-pass accepts the target forms the assignment handler accepts ------------------------------------------------------
     ctx.rule("R01.10", "target names: the pre-pass that collects the names a target binds (used for comprehension variables and function locals) handles every target form "
